@@ -48,6 +48,11 @@ class Check(PropertyCheck):
         blocks = [b for b in blocks if b]
         self._blocks = blocks
         for _ in range(n):
+            if self.rng.chance(1, 5):
+                z = clean(gen.zoo_piece(self.rng, quotes=False, tags=False, special=False))
+                if z:
+                    out.append(z)
+                    continue
             if self.rng.chance(1, 4) and blocks:
                 out.append(self.rng.choice(blocks))
             else:
